@@ -375,8 +375,8 @@ def run_health(ctx, cases):
     for i, c in enumerate(cases):
         c["id"] = i + 1
     res = ctx.harness("balancer", ["health-run"], cases=cases, timeout=1500, race=True)
-    if "DATA RACE" in (ctx.last_stderr or ""):
-        ctx.report("race/health", ctx.last_stderr[-1500:], case=None, harness="balancer", cmd="health-run")
+    for sig, text in vlib.race_reports(ctx.last_stderr or ""):
+        ctx.report(sig, text, case=None, harness="balancer", cmd="health-run")
     events = [x for x in res if "ev" in x]
     summ = [x for x in res if x.get("summary")]
     crash = [x for x in res if "_harness_exit" in x]
@@ -414,11 +414,8 @@ def run_conc(ctx, cases):
         c["id"] = i + 1
     res = ctx.harness("balancer", ["conc-run"], cases=cases, timeout=1500, race=True)
     stderr = ctx.last_stderr or ""
-    if "DATA RACE" in stderr:
-        i = stderr.index("DATA RACE")
-        frames = [ln.strip() for ln in stderr[i:i + 3000].splitlines() if "bfenetworks/bfe/" in ln and "(" in ln][:2]
-        ctx.report("race/" + "|".join(f.split("(")[0].split("/")[-1] for f in frames), stderr[i - 20:i + 2500],
-                   case=None, harness="balancer", cmd="conc-run")
+    for sig, text in vlib.race_reports(stderr):
+        ctx.report(sig, text, case=None, harness="balancer", cmd="conc-run")
     events = [x for x in res if "ev" in x]
     summ = [x for x in res if x.get("summary")]
     crash = [x for x in res if "_harness_exit" in x]
